@@ -205,14 +205,14 @@ def scaled_merge_all(models, exps, exclude, path):
 
 def run(ctx):
     thorough = ctx.tier == "thorough"
-    ctx.rule = ("D1: every ordered list of <= %s intervals over positions 1..6 x 7 seqid/strand/type patterns x 8 criteria sets (default, any-inclusive, exact, start-inclusive, "
+    ctx.rule = ("D1: every ordered list of <= %s intervals over positions 1..6 (thorough: 1..5) x 10 seqid/strand/type/attribute patterns x 10 criteria sets (default, any-inclusive, exact, start-inclusive, "
                 "three thresholds, empty) - MC_Intervals mode merge: PartitionOK, UnionLemma (default criteria on grouped sorted input = connected components), merged size = "
                 "union size; one case in %d replayed through FeatureDB.merge TWICE on the same objects (outputs, children by identity, distinct fresh ids, inputs and database "
                 "unchanged); D2: random gene models: children_bp(merge on/off) for every feature and merge_all(exclude_components on/off) on a file database compared row by "
                 "row with the model (Gen_Intervals). Non-trivial: >= 3 intervals with a multi-member run, a non-default criterion, or the second application; distinct by case.") % (
-                    "4" if thorough else "3", 5 if thorough else 11)
+                    "4" if thorough else "3", 23 if thorough else 11)
     import gffutils
-    mc = ctx.tlc("MC_Intervals", I.MC_CFG % (4 if thorough else 3, 6, "merge", 5 if thorough else 11), expect="inv", label="merge: partition, union lemma, bp", timeout=3000)
+    mc = ctx.tlc("MC_Intervals", I.MC_CFG % ((4, 5, "merge", 23) if thorough else (3, 6, "merge", 11)), expect="inv", label="merge: partition, union lemma, bp", timeout=3000)
     if not mc.ok:
         ctx.violation({"tlc": "MC_Intervals"}, "model:" + str(mc.violated), {"log": ctx.keep_log("MC_Intervals_merge", mc.out)})
         return
